@@ -1,188 +1,187 @@
-(* Invariant proof, part 8: LockDB.Lock. *)
+(* Invariant proof, part 9: cancelWaitLock, LockDB.UnLock, doTimeOut, doExpried. *)
 From Coq Require Import String ZifyN ZifyBool ZifyNat Permutation.
 From Slock Require Import Engine.Types Engine.Queues Engine.Timers Engine.Engine Engine.Engine2 Engine.InvDef Engine.InvBase
-  Engine.InvPrims Engine.InvRec Engine.InvWheel Engine.InvQueue Engine.InvQueue2 Engine.InvSteps Engine.InvLockDefs.
+  Engine.InvPrims Engine.InvRec Engine.InvWheel Engine.InvQueue Engine.InvQueue2 Engine.InvSteps Engine.InvLockDefs Engine.InvLock.
 Open Scope N_scope.
 
-Definition res_ok (xt xe : list ref) (k : N) (res : db * list event * option wake) : Prop :=
-  GInv (fst (fst res)) (gk xt xe k) /\ (forall w, snd res = Some w -> w_key w = k).
-
-Lemma res_ok_same s ev xt xe k : GInv s (gk xt xe k) -> res_ok xt xe k (s, ev, None).
-Proof. intros G. split; [exact G|intros w H; discriminate]. Qed.
-
-(* ---------------------------------------------------------------- the new lock record and what becomes of it *)
-Lemma ls_tail_ginv s xt xe conn c k waited m :
-  GInv s (gk xt xe k) -> cmd_core c -> aget (mgrs s) k = Some m -> next s < MAXREC ->
-  res_ok xt xe k (ls_tail s conn c k waited).
+Lemma find_last_waiter_spec s items id : forall acc r, find_last_waiter s items id acc = Some r ->
+  acc = Some r \/ (In r items /\ l_timeouted (getl s r) = false).
 Proof.
-  intros G Hc Hm Hb. set (g := gk xt xe k) in *.
-  destruct (new_lock_ginv s g k conn c m G Hm eq_refl eq_refl Hb Hc) as [Enl G1].
-  destruct (fresh_zero s g (next s) G (N.le_refl _)) as [Fn [Fte [Fph Fl]]].
-  unfold ls_tail. rewrite Enl in *. cbn [fst] in G1.
-  set (r := next s) in *. set (l0 := fresh_rec s k conn c) in *.
-  match goal with |- context [updm ?S k ?f] => set (s1 := updm S k f) in * end.
-  assert (Hm1 : exists m1, aget (mgrs s1) k = Some m1 /\ holders m1 = holders m /\ m_wq m1 = m_wq m /\ m_locked m1 = m_locked m).
-  { unfold s1, updm. cbn [mgrs]. change (mgrs (s <| store := aset (store s) r l0 |> <| next := r + 1 |>)) with (mgrs s). rewrite Hm.
-    eexists. split; [rewrite mgrs_setm, aget_aset_same; reflexivity|]. destruct m; cbn. auto. }
-  destruct Hm1 as [m1 [Hm1 [Hh1 [Hw1 Hl1]]]].
-  assert (Hr1 : aget (store s1) r = Some l0).
-  { unfold s1, updm. change (mgrs (s <| store := aset (store s) r l0 |> <| next := r + 1 |>)) with (mgrs s). rewrite Hm.
-    change (store (setm _ k _)) with (aset (store s) r l0). apply aget_aset_same. }
-  assert (Hwh : twheel s1 = twheel s /\ tlong s1 = tlong s /\ ewheel s1 = ewheel s /\ elong s1 = elong s).
-  { unfold s1, updm. change (mgrs (s <| store := aset (store s) r l0 |> <| next := r + 1 |>)) with (mgrs s). rewrite Hm. auto. }
-  destruct Hwh as [W1 [W2 [W3 W4]]].
-  assert (Hte1 : tcount s1 g r = O /\ ecount s1 g r = O).
-  { unfold tcount, ecount in *. rewrite W1, W2, W3, W4. lia. }
-  destruct Hte1 as [Ht1 He1].
-  specialize (Fl k). rewrite (getm_some _ _ _ Hm), occ_app in Fl.
-  assert (Hh0 : occ r (holders m1) = O) by (rewrite Hh1; lia).
-  assert (Hw0 : occ r (m_wq m1) = O) by (rewrite Hw1; lia).
-  cbv zeta.
-  destruct Hc as [C1 [C2 [C3 C4]]].
-  destruct ((negb waited || has (c_tflag c) TF_PRIORITY && check_wait_priority s1 k c) && do_lock s1 k r) eqn:Eadm.
-  - (* admitted *)
-    apply andb_true_iff in Eadm. destruct Eadm as [_ Edl]. unfold do_lock in Edl. apply do_lock_rule_bound in Edl.
-    rewrite (getm_some _ _ _ Hm1) in Edl.
-    assert (Hwk : forall w, (if m_waited (getm s1 k) then Some (mkWake k (Some conn)) else None) = Some w -> w_key w = k).
-    { intros w. destruct (m_waited (getm s1 k)); intros H; inversion H; reflexivity. }
-    destruct (0 <? c_expried c) eqn:Eexp.
-    + (* a hold *)
-      rewrite C1. cbn [andb].
-      assert (GG : GInv (grant_core s1 k r) (g <| g_cl := (g_cl g + 1)%Z |>)).
-      { apply (grant_core_ginv s1 g k r l0 m1 G1); unfold g, gk; gs; auto. lia. }
-      unfold grant_core in GG. cbv zeta in GG.
-      destruct (has_data_flag c); rewrite ?(process_data_core _ _ _ _ _ C4); cbv iota beta; rewrite C3;
-        destruct (add_expried _ k r) as [s4 aev]; cbn [fst] in GG; (split; [|exact Hwk]); cbn [fst];
-        (eapply ginv_geq; [apply (updc_ginv _ _ _ 0%Z 0%Z GG); unfold g, gk; gs; cbn; lia|reflexivity]).
-    + (* Expried = 0: no hold, the record is freed at once *)
-      assert (Hfree : forall s2, GInv s2 g -> sim s1 s2 ->
-                res_ok xt xe k (bump (fun n => n <| n_lock := (n_lock n + 1)%Z |>) (remove_mgr_if_unref (free_lock s2 r) k), [], None)).
-      { intros s2 G2 S2. destruct (sim_stored s1 s2 r l0 S2 Hr1) as [l2 [Hr2 Hl2]].
-        assert (Hrefc : l_refc l2 = 0) by (rewrite Hl2; reflexivity).
-        assert (Hto : liveb l2 = 0%Z) by (rewrite Hl2; reflexivity).
-        pose proof (free_lock_ginv s2 g r l2 G2 Hr2 Hrefc eq_refl) as G3. rewrite Hto in G3.
-        split; [|intros w H; discriminate]. cbn [fst].
-        eapply ginv_geq; [eapply updc_ginv with (cl' := 0%Z) (cw' := 0%Z); [apply remove_mgr_ginv; [exact G3|intros _; split; reflexivity]|..]; unfold g, gk; gs; cbn; lia|reflexivity]. }
-      destruct (has_data_flag c).
-      * rewrite (process_data_core _ _ _ _ _ C4). cbv iota beta.
-        destruct (_ && _).
-        -- destruct (push_lock_aof_ok s1 g k r 0 G1) as [G2 S2]. destruct (push_lock_aof s1 k r 0) as [s2 aev]. cbn [fst] in *.
-           destruct (Hfree s2 G2 S2) as [X _]. split; [exact X|exact Hwk].
-        -- destruct (Hfree s1 G1 (sim_refl s1)) as [X _]. split; [exact X|exact Hwk].
-      * destruct (Hfree s1 G1 (sim_refl s1)) as [X _]. split; [exact X|exact Hwk].
-  - destruct ((0 <? c_timeout c) && (negb (has (c_tflag c) TF_TIMEOUT_WHEN_DATA) || match data_of s1 k with None => true | Some _ => false end)).
-    + (* queued *)
-      rewrite C2.
-      destruct (add_wait_lock_ginv s1 g k r l0 m1 G1) as [G2 [[n Hr2] Win Whold LF]]; unfold g, gk; gs; auto.
-      set (s2 := add_wait_lock s1 k r) in *.
-      set (l2 := l0 <| l_refc := n |>) in *.
-      assert (Hte2 : tcount s2 g r = O /\ ecount s2 g r = O).
-      { unfold tcount, ecount in *. rewrite (lf_tw _ _ LF), (lf_tl _ _ LF), (lf_ew _ _ LF), (lf_el _ _ LF). lia. }
-      destruct Hte2 as [Ht2 He2].
-      pose proof (ginv_borrow_t s2 g r l2 G2 Hr2 Ht2) as G3.
-      assert (G4 : GInv (add_timeout s2 r) (g <| g_owe := [r] |> <| g_cw := 1%Z |>)).
-      { eapply ginv_geq; [eapply (add_timeout_ginv s2 _ r _ l2 G3); unfold g, gk; gs; auto; try reflexivity|].
-        - change (l_key l2) with k. rewrite Whold, (getm_some _ _ _ Hm1). exact Hh0.
-        - reflexivity. }
-      destruct (aget (store (add_timeout s2 r)) r) as [l3|] eqn:Hr3; [|apply add_timeout_stored in Hr3; congruence].
-      split; [|intros w H; discriminate]. cbn [fst].
-      eapply ginv_geq; [eapply updc_ginv with (cl' := 0%Z) (cw' := 0%Z); [apply (updl_refc_owe _ _ r [] l3 G4); gs; auto|..]; unfold g, gk; gs; cbn; lia|reflexivity].
-    + (* refused at once *)
-      pose proof (free_lock_ginv s1 g r l0 G1 Hr1 eq_refl eq_refl) as G3.
-      split; [|intros w H; discriminate]. cbn [fst].
-      eapply ginv_geq; [apply remove_mgr_ginv; [exact G3|intros _; split; reflexivity]|reflexivity].
+  induction items as [|x t IH]; intros acc r H; simpl in H; [auto|].
+  destruct (negb (l_timeouted (getl s x)) && (c_lockid (l_cmd (getl s x)) =? id)) eqn:E.
+  - destruct (IH _ _ H) as [H1|[H1 H2]]; [|right; simpl; auto].
+    inversion H1; subst. right. apply andb_true_iff in E. destruct E as [E _]. apply negb_true_iff in E. simpl. auto.
+  - destruct (IH _ _ H) as [H1|[H1 H2]]; [auto|right; simpl; auto].
 Qed.
 
-(* ---------------------------------------------------------------- the key is held: show / update / re-entrant branches *)
-Lemma mlocked_bound s xt xe k m : GInv s (gk xt xe k) -> aget (mgrs s) k = Some m -> next s < MAXREC ->
-  m_locked m + 1 < 4294967296.
+(* the live-waiter part shared by cancelWaitLock and doTimeOut: the waiter is marked answered (wg_pre), dead heads are
+   dropped, `waited` is cleared when nobody is left, WaitCount-- *)
+Definition waiter_gone (s : db) (k : N) : db :=
+  let '(s, w) := get_wait_lock s k in
+  let s := match w with None => updm s k (fun m => m <| m_waited := false |>) | Some _ => s end in
+  bump (fun n => n <| n_wait := (n_wait n - 1)%Z |>) s.
+
+Lemma waiter_gone_ginv s xt xe k : GInv s (gk xt xe k <| g_cw := (-1)%Z |>) -> GInv (waiter_gone s k) (gk xt xe k).
 Proof.
-  intros G Hm Hb. destruct (gi_mgr _ _ G k m Hm) as [B1 B2 B3 B4 B5 B6 B7 B8 B9 Bb B10 Bc].
-  assert (Hd : forall r, l_locked (getl s r) <= 255).
-  { intros r. destruct (aget (store s) r) as [l|] eqn:Hr.
-    - rewrite (getl_some _ _ _ Hr). apply (ro_depth _ _ _ _ (gi_rec _ _ G r l Hr)).
-    - rewrite (getl_none _ _ Hr). simpl. lia. }
-  pose proof (sumdepth_bound s (holders m) Hd) as S1.
-  assert (S2 : (length (holders m) <= length (store s))%nat).
-  { apply nodup_stored_length; [apply (gi_wf_s _ _ G)|exact B4|].
-    intros r Hi. apply B1. unfold phk, gk. gs. destruct (k =? k); simpl; rewrite occ_app; apply occ_In in Hi; lia. }
-  pose proof (gi_len _ _ G) as S3. unfold dlk, gk in B6. gs. destruct (k =? k) in B6; unfold MAXREC in Hb; lia.
+  intros G. unfold waiter_gone.
+  pose proof (get_wait_lock_ginv s _ k G) as P. destruct (get_wait_lock s k) as [s1 w].
+  destruct P as [G1 _]; auto.
+  assert (G2 : GInv (match w with None => updm s1 k (fun m => m <| m_waited := false |>) | Some _ => s1 end) (gk xt xe k <| g_cw := (-1)%Z |>)).
+  { destruct w; auto. apply updm_scalar; auto. }
+  eapply ginv_geq; [eapply updc_ginv with (cl' := 0%Z) (cw' := 0%Z); [exact G2|..]; unfold gk; gs; cbn; lia|reflexivity].
 Qed.
 
-Lemma cmd_core_lockid c x : cmd_core c -> cmd_core (c <| c_lockid := x |>).
-Proof. unfold cmd_core. destruct c; cbn. auto. Qed.
-
-Lemma ls_update_ok s xt xe conn c1 k m r l ldata :
-  GInv s (gk xt xe k) -> aget (mgrs s) k = Some m -> cmd_core c1 ->
-  aget (store s) r = Some l -> l_key l = k -> 0 < l_locked l -> c_lockid (l_cmd l) = c_lockid c1 ->
-  l_timeouted l = true -> occ r (holders m) = 1%nat ->
-  exists res, ls_update s conn c1 k m r l ldata = (Some res, c1, m_waited m) /\ res_ok xt xe k res.
+Lemma cancel_wait_lock_ginv s xt xe conn c :
+  GInv s (gk xt xe (c_key c)) -> res_ok xt xe (c_key c) (cancel_wait_lock s conn c).
 Proof.
-  intros G Hm Hc1 Hr Hkey Hd Hid Ht Hh. set (g := gk xt xe k) in *.
-  pose proof Hc1 as [C1 [C2 [C3 C4]]].
-  assert (Hupd : forall s2 aev, GInv s2 g ->
-     exists res,
-       (let s2 := updl s2 r (fun l => l <| l_conn := conn |>) in
-        let from_aof := has (c_flag c1) LOCK_FLAG_FROM_AOF in
-        if negb from_aof && has (c_tflag c1) TF_REQUIRE_ACKED && negb (l_aoftime (getl s2 r) =? 255) then
-          let '(s3, e3) := push_lock_aof s2 k r AOF_FLAG_UPDATED in
-          let s3 := updl s3 r (fun l => l <| l_refc := add8 (l_refc l) 1 |>) in
-          (Some (s3, @nil event ++ aev ++ e3, None), c1, m_waited m)
-        else
-          let '(s3, e3) := if negb from_aof && l_isaof (getl s2 r) then push_lock_aof s2 k r AOF_FLAG_UPDATED else (s2, []) in
-          (Some (s3, [] ++ aev ++ e3 ++ [reply conn c1 R_LOCKED_ERROR (m_locked (getm s3 k)) (l_locked (getl s3 r)) ldata],
-                 Some (mkWake k (Some conn))), c1, m_waited m)) = (Some res, c1, m_waited m) /\ res_ok xt xe k res).
-  { intros s2 aev G2. cbv zeta. rewrite C1, andb_false_r. cbn [andb].
-    assert (G3 : GInv (updl s2 r (fun l => l <| l_conn := conn |>)) g).
-    { apply updl_irrel; auto. intros l0 _. split; [unfold same_rel; destruct l0; cbn; intuition|destruct l0; cbn; auto]. }
-    destruct (negb (has (c_flag c1) LOCK_FLAG_FROM_AOF) && l_isaof (getl (updl s2 r (fun l => l <| l_conn := conn |>)) r)).
-    - destruct (push_lock_aof_ok _ g k r AOF_FLAG_UPDATED G3) as [G4 _].
-      destruct (push_lock_aof _ k r AOF_FLAG_UPDATED) as [s3 e3]. eexists. split; [reflexivity|].
-      split; [exact G4|intros w0 H; inversion H; reflexivity].
-    - eexists. split; [reflexivity|]. split; [exact G3|intros w0 H; inversion H; reflexivity]. }
-  pose proof (update_and_rearm_ginv s xt xe k 0%Z 0%Z r c1 l m G Hr Hkey Hm Hd Ht Hh Hc1 (eq_sym Hid)) as GU.
-  unfold ls_update.
-  destruct (has_data_flag c1); rewrite ?(process_data_core _ _ _ _ _ C4); cbv iota beta;
-    match goal with |- context [if ?b then (Some (s, _, None), c1, m_waited m) else _] => destruct b end;
-    try (eexists; split; [reflexivity|apply res_ok_same; auto]).
-  all: destruct (update_and_rearm s k r c1) as [s2 aev]; cbn [fst] in GU; apply (Hupd s2 aev GU).
+  intros G. unfold cancel_wait_lock. cbv zeta. set (k := c_key c) in *.
+  destruct (match m_wait (getm s k) with Some q => find_last_waiter s (wq_items q) (c_lockid c) None | None => None end) as [r|] eqn:Ew.
+  - assert (Hlive : l_timeouted (getl s r) = false).
+    { destruct (m_wait (getm s k)) as [q|]; [|discriminate]. destruct (find_last_waiter_spec _ _ _ _ _ Ew) as [H|[_ H]]; [discriminate|auto]. }
+    destruct (aget (store s) r) as [l|] eqn:Hr; [|rewrite (getl_none _ _ Hr) in Hlive; discriminate].
+    rewrite (getl_some _ _ _ Hr) in *.
+    destruct (ro_live _ _ _ _ (gi_rec _ _ G r l Hr) Hlive) as [_ [_ [Hd _]]].
+    rewrite Hd. change (0 <? 0) with false. cbv iota.
+    assert (Ewg : wg_pre s r = if l_long l then remove_long_timeout (updl s r (fun l0 => l0 <| l_timeouted := true |>)) r
+                               else updl s r (fun l0 => l0 <| l_timeouted := true |>)).
+    { unfold wg_pre. rewrite (getl_some _ _ _ Hr). reflexivity. }
+    rewrite <- Ewg.
+    destruct (wg_pre_ginv s xt xe k r l G Hr Hlive) as [G1 _].
+    pose proof (waiter_gone_ginv (wg_pre s r) xt xe k G1) as G2. unfold waiter_gone in G2.
+    destruct (get_wait_lock (wg_pre s r) k) as [s1 w].
+    split; [|intros w0 H; inversion H; reflexivity]. cbn [fst].
+    eapply ginv_geq; [eapply updc_ginv with (cl' := 0%Z) (cw' := 0%Z); [apply remove_mgr_ginv; [exact G2|intros _; split; reflexivity]|..]; unfold gk; gs; cbn; lia|reflexivity].
+  - split; [|intros w0 H; discriminate]. cbn [fst].
+    eapply ginv_geq; [eapply updc_ginv with (cl' := 0%Z) (cw' := 0%Z); [exact G|..]; unfold gk; gs; cbn; lia|reflexivity].
 Qed.
 
-Lemma ls_relock_ok s xt xe conn c1 k m r l ldata :
-  GInv s (gk xt xe k) -> aget (mgrs s) k = Some m -> cmd_core c1 -> next s < MAXREC ->
-  aget (store s) r = Some l -> l_key l = k -> 0 < l_locked l -> c_lockid (l_cmd l) = c_lockid c1 ->
-  l_timeouted l = true -> occ r (holders m) = 1%nat -> l_locked l < 255 ->
-  exists res, ls_relock s conn c1 k m r l ldata = (Some res, c1, m_waited m) /\ res_ok xt xe k res.
+(* ---------------------------------------------------------------- releasing a hold *)
+Definition gkd (xt xe : list ref) (k : N) (d a b : Z) : ghost := mkGhost xt xe [] [] [] [] k false false d a b.
+
+Lemma holder_facts s g k m r : GInv s g -> g_dk g = k -> g_ph g = [] -> g_pre g = [] ->
+  aget (mgrs s) k = Some m -> In r (holders m) -> 0 < l_locked (getl s r) ->
+  exists l, aget (store s) r = Some l /\ l_key l = k /\ l_timeouted l = true /\ occ r (holders m) = 1%nat.
 Proof.
-  intros G Hm Hc1 Hb Hr Hkey Hd Hid Ht Hh Hlt. set (g := gk xt xe k) in *.
-  pose proof Hc1 as [C1 [C2 [C3 C4]]].
-  unfold ls_relock. destruct (c_expried c1 =? 0).
-  { eexists. split; [reflexivity|apply res_ok_same; auto]. }
-  cbv zeta.
-  pose proof (mlocked_bound s xt xe k m G Hm Hb) as Hmb.
+  intros G Hk Hp Hq Hm Hi Hl.
+  destruct (gi_mgr _ _ G k m Hm) as [B1 B2 B3 B4 B5 B6 B7 B8 B9 Bb B10 Bc].
+  assert (Hst : aget (store s) r <> None).
+  { apply B1. unfold phk. rewrite Hp. destruct (k =? g_dk g); simpl; rewrite occ_app; apply occ_In in Hi; lia. }
+  destruct (aget (store s) r) as [l|] eqn:Hr; [|congruence].
+  assert (Hi' : In r (holders (getm s k))) by (rewrite (getm_some _ _ _ Hm); auto).
+  destruct (holder_timeouted s _ k r l G Hi' Hr) as [T K].
+  exists l. repeat split; auto.
+  pose proof (proj1 (occ_nodup _) B4 r). apply occ_In in Hi. lia.
+Qed.
+
+Lemma sumdepth_ge s r L : In r L -> l_locked (getl s r) <= sumdepth s L.
+Proof.
+  induction L as [|x t IH]; simpl; [tauto|]. intros [->|H]; [lia|]. specialize (IH H). lia.
+Qed.
+
+Lemma sub32_sub x y : y <= x -> x < 4294967296 -> sub32 x y = x - y.
+Proof.
+  intros H1 H2. unfold sub32. rewrite (N.mod_small y) by lia.
+  replace (x + 4294967296 - y) with (x - y + 1 * 4294967296) by lia. rewrite N.mod_add by lia. apply N.mod_small. lia.
+Qed.
+
+(* the tail of release_hold once the expiry entry is dealt with *)
+Lemma release_tail_ginv s xt xe k r l d :
+  GInv s (gkd xt xe k (Z.of_N d) (- Z.of_N d) 0) -> aget (store s) r = Some l -> l_key l = k -> l_locked l = d -> 0 < d ->
+  forall lc uc,
+  GInv (remove_lock (if l_isaof (getl s r) then fst (push_unlock_aof s k r lc uc false 0) else s) k r) (gkd xt xe k 0 (- Z.of_N d) 0).
+Proof.
+  intros G Hr Hkey Hd Hpos lc uc.
+  assert (P : exists s1 l1, s1 = (if l_isaof (getl s r) then fst (push_unlock_aof s k r lc uc false 0) else s)
+              /\ GInv s1 (gkd xt xe k (Z.of_N d) (- Z.of_N d) 0) /\ aget (store s1) r = Some l1 /\ lsame l l1).
+  { destruct (l_isaof (getl s r)).
+    - destruct (push_unlock_aof_ok s _ k r lc uc false 0 G) as [G1 S1].
+      destruct (sim_stored _ _ r l S1 Hr) as [l1 [H1 H2]]. eauto 6.
+    - exists s, l. split; [reflexivity|]. split; [exact G|]. split; [exact Hr|apply lsame_refl]. }
+  destruct P as [s1 [l1 [E [G1 [Hr1 Hs1]]]]]. rewrite <- E.
+  assert (K1 : l_key l1 = k) by (rewrite Hs1; exact Hkey).
+  assert (D1 : l_locked l1 = d) by (rewrite Hs1; exact Hd).
+  eapply ginv_geq; [apply (remove_lock_ginv s1 _ k r l1 G1); unfold gkd; gs; auto; lia|].
+  rewrite D1. unfold gkd. gs. match goal with |- _ = ?g0 <| g_dl := ?e1 |> => replace e1 with 0%Z by lia end. reflexivity.
+Qed.
+
+Lemma free_if_unref_ginv s g k r : GInv s g -> g_owe g = [] -> g_ph g = [] -> (k = g_dk g -> g_dl g = 0%Z) ->
+  GInv (if l_refc (getl s r) =? 0 then remove_mgr_if_unref (free_lock s r) k else s) g.
+Proof.
+  intros G Ho Hp Hk. destruct (l_refc (getl s r) =? 0) eqn:E; auto. apply N.eqb_eq in E.
+  apply remove_mgr_ginv; [|intros Ek; split; auto].
+  destruct (aget (store s) r) as [l|] eqn:Hr.
+  - rewrite (getl_some _ _ _ Hr) in E.
+    assert (Ht : l_timeouted l = true).
+    { destruct (l_timeouted l) eqn:Et; auto. exfalso.
+      destruct (ro_live _ _ _ _ (gi_rec _ _ G r l Hr) Et) as [_ [_ [_ Q]]].
+      destruct (free_facts s g r l G Hr E) as [_ [_ [_ [_ [Z2 _]]]]]; [rewrite Ho; reflexivity|].
+      rewrite Hp in Z2. simpl in Z2. lia. }
+    pose proof (free_lock_ginv s g r l G Hr E) as F. rewrite Ho in F. specialize (F eq_refl).
+    unfold liveb in F. rewrite Ht in F. eapply ginv_geq; [exact F|]. destruct g; gs. rewrite Z.sub_0_r. reflexivity.
+  - unfold free_lock. rewrite Hr. exact G.
+Qed.
+
+Lemma release_tail2 s xt xe k r l d lc uc :
+  GInv s (gkd xt xe k (Z.of_N d) (- Z.of_N d) 0) -> aget (store s) r = Some l -> l_key l = k -> l_locked l = d -> 0 < d ->
+  GInv (fst (let '(s0, aev) := if l_isaof (getl s r) then push_unlock_aof s k r lc uc false 0 else (s, []) in (remove_lock s0 k r, aev)))
+       (gkd xt xe k 0 (- Z.of_N d) 0)
+  /\ GInv (fst (let '(s0, aev) := if l_isaof (getl s r) then push_unlock_aof s k r lc uc false 0 else (s, []) in
+                let s0 := remove_lock s0 k r in
+                let s0 := if l_refc (getl s0 r) =? 0 then remove_mgr_if_unref (free_lock s0 r) k else s0 in (s0, aev)))
+       (gkd xt xe k 0 (- Z.of_N d) 0).
+Proof.
+  intros G Hr Hkey Hd Hpos.
+  pose proof (release_tail_ginv s xt xe k r l d G Hr Hkey Hd Hpos lc uc) as GT.
+  destruct (l_isaof (getl s r)); [destruct (push_unlock_aof s k r lc uc false 0) as [s2 aev]|]; cbn [fst] in *;
+    (split; [exact GT|apply free_if_unref_ginv; auto]).
+Qed.
+
+Lemma release_hold_ginv s xt xe k conn c r l d m :
+  GInv s (gkd xt xe k (Z.of_N d) (- Z.of_N d) 0) -> aget (store s) r = Some l -> l_key l = k -> l_locked l = d -> 0 < d ->
+  l_timeouted l = true -> aget (mgrs s) k = Some m -> occ r (holders m) = 1%nat -> c_data c = None ->
+  GInv (fst (release_hold s k conn c r d)) (gk xt xe k).
+Proof.
+  intros G Hr Hkey Hd Hpos Ht Hm Hh Hc. set (g := gkd xt xe k (Z.of_N d) (- Z.of_N d) 0) in *.
   destruct (gi_rec _ _ G r l Hr) as [A1 A2 A3 A4 A5 A6 A7 A8 A9 A10 A11].
-  rewrite (updm_some _ _ _ _ Hm).
-  set (m1 := m <| m_locked := add32 (m_locked m) 1 |>).
-  assert (Hl1 : m_locked m1 = m_locked m + 1) by (unfold m1; cbn; apply add32_succ; auto).
-  assert (G1 : GInv (setm s k m1) (g <| g_dl := (-1)%Z |> <| g_cl := 1%Z |>)).
-  { eapply ginv_geq; [apply (setm_scalar s g k m m1 G Hm); try (destruct m; reflexivity); [lia|right; reflexivity]|].
-    rewrite Hl1. unfold g, gk. gs.
-    match goal with |- _ = ?g0 <| g_dl := ?e1 |> <| g_cl := ?e2 |> => replace e1 with (-1)%Z by lia; replace e2 with 1%Z by lia end. reflexivity. }
-  set (s1 := setm s k m1) in *.
-  assert (Hr1 : aget (store s1) r = Some l) by exact Hr.
-  assert (Hm1 : aget (mgrs s1) k = Some m1) by (unfold s1; rewrite mgrs_setm, aget_aset_same; auto).
-  assert (Hh1 : holders m1 = holders m) by (destruct m; reflexivity).
-  rewrite (updl_some _ _ _ _ Hr1).
-  set (l2 := l <| l_locked := add8 (l_locked l) 1 |>).
-  assert (Hd2 : l_locked l2 = l_locked l + 1) by (unfold l2; cbn; apply add8_succ; lia).
-  assert (G2 : GInv (setl s1 r l2) (gkc xt xe k 1 0)).
-  { eapply ginv_geq; [apply (setl_depth s1 _ r l l2 G1 Hr1); unfold g, gk; gs; auto; try lia|].
-    - intros _ _. rewrite Hkey. unfold s1. rewrite getm_setm_same, Hh1. exact Hh.
-    - simpl. tauto.
-    - rewrite Hkey. unfold s1 at 1. rewrite getm_setm_same, Hh1, Hh, Hd2. unfold g, gk, gkc. gs.
-      match goal with |- _ = ?g0 <| g_dl := ?e1 |> => replace e1 with 0%Z by lia end. reflexivity. }
-  set (s2 := setl s1 r l2) in *.
-  assert (Hr2 : aget (store s2) r = Some l2) by (unfold s2; rewrite store_setl, aget_aset_same; auto).
-  assert (Hm2 : aget (mgrs s2) k = Some m1) by exact Hm1.
-  assert (GU : GInv (fst (update_and_rearm s2 k r c1)) (gkc xt xe k 1 0)).
-{ apply (update_and_rearm_ginv s2 xt xe k 1%Z 0%Z r c1 l2 m1 G2 Hr2); auto; try lia. Show. 
+  unfold release_hold. cbv zeta. rewrite (updl_some _ _ _ _ Hr), (getl_some _ _ _ Hr).
+  set (l1 := l <| l_expried := true |>).
+  assert (G1 : GInv (setl s r l1) g).
+  { apply (setl_irrel s g r l l1 G Hr); [unfold same_rel; intuition|intuition]. }
+  set (s1 := setl s r l1) in *.
+  assert (Hr1 : aget (store s1) r = Some l1) by (unfold s1; rewrite store_setl, aget_aset_same; auto).
+  assert (Hfin : forall s3, GInv s3 (gkd xt xe k 0 (- Z.of_N d) 0) ->
+            GInv (bump (fun n => n <| n_unlock := (n_unlock n + Z.of_N d)%Z |> <| n_locked := (n_locked n - Z.of_N d)%Z |>) s3) (gk xt xe k)).
+  { intros s3 G3. eapply ginv_geq; [eapply updc_ginv with (cl' := 0%Z) (cw' := 0%Z); [exact G3|..]; unfold gkd; gs; cbn; lia|reflexivity]. }
+  assert (Hmain : GInv (fst (let '(s0, aev) :=
+             if l_long l1 then
+               let s0 := remove_long_expried s1 r (l_eT l1) in
+               let '(s0, aev) := if l_isaof (getl s0 r) then push_unlock_aof s0 k r (l_cmd l) (Some c) false 0 else (s0, []) in
+               let s0 := remove_lock s0 k r in
+               let s0 := if l_refc (getl s0 r) =? 0 then remove_mgr_if_unref (free_lock s0 r) k else s0 in (s0, aev)
+             else
+               let '(s0, aev) := if l_isaof (getl s1 r) then push_unlock_aof s1 k r (l_cmd l) (Some c) false 0 else (s1, []) in
+               (remove_lock s0 k r, aev) in
+            (bump (fun n => n <| n_unlock := (n_unlock n + Z.of_N d)%Z |> <| n_locked := (n_locked n - Z.of_N d)%Z |>) s0, aev))) (gk xt xe k)).
+  { change (l_long l1) with (l_long l). change (l_eT l1) with (l_eT l). destruct (l_long l) eqn:Elong.
+    - assert (Hbk : occ r (wheel_get (elong s1) (lkey (l_eT l))) = 1%nat) by (change (elong s1) with (elong s); apply A8; auto).
+      pose proof (ginv_pend_add s1 g r G1) as Ga.
+      assert (Gb : GInv (remove_long_expried s1 r (l_eT l)) (g <| g_pend := [r] |>)).
+      { apply (remove_long_expried_ginv s1 _ r l1 (l_eT l) Ga Hr1); unfold g, gkd; gs; auto;
+          try (rewrite occ_cons_eq; lia);
+          try (intros _; change (l_key l1) with (l_key l); rewrite Hkey; change (getm s1 k) with (getm s k); rewrite (getm_some _ _ _ Hm); exact Hh). }
+      destruct (remove_long_expried_frame s1 r (l_eT l) l1 Hr1) as [Fr _].
+      destruct (wheel_get_some (elong s1) (lkey (l_eT l)) r) as [q [Hq1 Hq2]]; [lia|]. rewrite Hq1 in Fr.
+      set (s2 := remove_long_expried s1 r (l_eT l)) in *.
+      set (l2 := l1 <| l_long := false |> <| l_refc := dec8 (l_refc l1) |>) in *.
+      assert (Gc : GInv s2 g).
+      { eapply ginv_geq; [apply (ginv_pend_drop _ _ r [] Gb); gs; auto|reflexivity].
+        intros l0 H0 Hl0. rewrite Fr in H0. inversion H0; subst l0. discriminate. }
+      destruct (release_tail2 s2 xt xe k r l2 d (l_cmd l) (Some c) Gc Fr Hkey Hd Hpos) as [_ GT].
+      cbv zeta in GT. cbv zeta.
+      destruct (if l_isaof (getl s2 r) then push_unlock_aof s2 k r (l_cmd l) (Some c) false 0 else (s2, [])) as [s3 aev].
+      cbn [fst] in *. apply Hfin. exact GT.
+    - destruct (release_tail2 s1 xt xe k r l1 d (l_cmd l) (Some c) G1 Hr1 Hkey Hd Hpos) as [GT _].
+      destruct (if l_isaof (getl s1 r) then push_unlock_aof s1 k r (l_cmd l) (Some c) false 0 else (s1, [])) as [s3 aev].
+      cbn [fst] in *. apply Hfin. exact GT. }
+  cbv zeta in Hmain.
+destruct (has_udata_flag c); rewrite ?(process_data_core _ _ _ _ _ Hc); cbv iota beta; rewrite (getl_some _ _ _ Hr1). Show. 
